@@ -3,11 +3,13 @@ import Driver.C06
 import Driver.C07
 import Driver.C08
 import Driver.C09
+import Driver.C10
 import Driver.C11
 import Driver.C13
 import Driver.C15
 import Driver.C17
 import Driver.C18
+import Driver.C19
 import Driver.C20
 
 namespace Driver
@@ -18,11 +20,13 @@ def dispatch (p : String) (rest : List String) : String :=
   | "C07" => C07.handle rest
   | "C08" => C08.handle rest
   | "C09" => C09.handle rest
+  | "C10" => C10.handle rest
   | "C11" => C11.handle rest
   | "C13" => C13.handle rest
   | "C15" => C15.handle rest
   | "C17" => C17.handle rest
   | "C18" => C18.handle rest
+  | "C19" => C19.handle rest
   | "C20" => C20.handle rest
   | _ => "bad unknown-property " ++ p
 end Driver
